@@ -25,9 +25,24 @@ func privateKey(fn *ssa.Function) string {
 }
 
 func fnSigString(fn *ssa.Function) string {
+	q := func(p *types.Package) string { return "" }
+	var sb strings.Builder
+	sb.WriteString("func(")
 	sig := fn.Signature
-	s := types.TypeString(types.NewSignatureType(nil, nil, nil, sig.Params(), sig.Results(), sig.Variadic()), func(p *types.Package) string { return "" })
-	return s
+	for i := 0; i < sig.Params().Len(); i++ {
+		if i > 0 {
+			sb.WriteString(", ")
+		}
+		if sig.Variadic() && i == sig.Params().Len()-1 {
+			sb.WriteString("...")
+		}
+		sb.WriteString(types.TypeString(sig.Params().At(i).Type(), q))
+	}
+	sb.WriteString(")")
+	for i := 0; i < sig.Results().Len(); i++ {
+		sb.WriteString(" " + types.TypeString(sig.Results().At(i).Type(), q))
+	}
+	return sb.String()
 }
 
 // privateFuncs lists the named private functions and methods (no literals) of lime and chat.
@@ -146,78 +161,78 @@ func (p *Prog) pinnedPredicate() func(*ssa.Function) bool {
 // `limecheck -noinline -dumpknown`), with their signatures. It decides only where the helper normalisation keeps a call
 // boundary; it is never compared with the code to reach a verdict.
 var knownPrivate = map[string]string{
-	"Client.buildChannel":                              "func(ctx Context) (*ClientChannel, error)",
+	"Client.buildChannel":                              "func(Context) *ClientChannel error",
 	"Client.channelOK":                                 "func() bool",
-	"Client.getOrBuildChannel":                         "func(ctx Context) (*ClientChannel, error)",
+	"Client.getOrBuildChannel":                         "func(Context) *ClientChannel error",
 	"Client.startListener":                             "func()",
 	"Client.stopListener":                              "func()",
-	"ClientChannel.authenticateSession":                "func(ctx Context, identity Identity, auth Authentication, instance string) (*Session, error)",
-	"ClientChannel.negotiateSession":                   "func(ctx Context, comp SessionCompression, encrypt SessionEncryption) (*Session, error)",
-	"ClientChannel.receiveSessionFromServer":           "func(ctx Context) (*Session, error)",
-	"ClientChannel.sendFinishingSession":               "func(ctx Context) error",
-	"ClientChannel.startNewSession":                    "func(ctx Context) (*Session, error)",
-	"Command.populate":                                 "func(raw *rawEnvelope) error",
-	"Command.toRawEnvelope":                            "func() (*rawEnvelope, error)",
-	"DocumentCollection.populate":                      "func(raw *rawDocumentCollection) error",
-	"DocumentCollection.raw":                           "func() (*rawDocumentCollection, error)",
-	"DocumentContainer.populate":                       "func(raw *rawDocumentContainer) error",
-	"DocumentContainer.raw":                            "func() (*rawDocumentContainer, error)",
-	"Envelope.populate":                                "func(raw *rawEnvelope) error",
-	"Envelope.toRawEnvelope":                           "func() (*rawEnvelope, error)",
-	"EnvelopeMux.handleMessage":                        "func(ctx Context, msg *Message, s Sender) error",
-	"EnvelopeMux.handleNotification":                   "func(ctx Context, not *Notification) error",
-	"EnvelopeMux.handleRequestCommand":                 "func(ctx Context, cmd *RequestCommand, s Sender) error",
-	"EnvelopeMux.handleResponseCommand":                "func(ctx Context, cmd *ResponseCommand, s Sender) error",
-	"EnvelopeMux.listen":                               "func(ctx Context, c *channel) error",
-	"Message.populate":                                 "func(raw *rawEnvelope) error",
-	"Message.toRawEnvelope":                            "func() (*rawEnvelope, error)",
-	"Notification.populate":                            "func(raw *rawEnvelope) error",
-	"Notification.toRawEnvelope":                       "func() (*rawEnvelope, error)",
-	"RequestCommand.populate":                          "func(raw *rawEnvelope) error",
-	"RequestCommand.toRawEnvelope":                     "func() (*rawEnvelope, error)",
-	"ResponseCommand.populate":                         "func(raw *rawEnvelope) error",
-	"ResponseCommand.toRawEnvelope":                    "func() (*rawEnvelope, error)",
-	"Server.consumeTransports":                         "func(ctx Context)",
-	"Server.handleChannel":                             "func(ctx Context, c *ServerChannel)",
-	"ServerChannel.authenticateSession":                "func(ctx Context, schemeOpts []AuthenticationScheme, authenticate func(Context, Identity, Authentication) (*AuthenticationResult, error), register func(Context, Node, *ServerChannel) (Node, error)) error",
-	"ServerChannel.negotiateSession":                   "func(ctx Context, compOpts []SessionCompression, encryptOpts []SessionEncryption) error",
-	"ServerChannel.receiveNewSession":                  "func(ctx Context) (*Session, error)",
-	"ServerChannel.sendAuthenticatingRoundTripSession": "func(ctx Context, roundTrip Authentication) (*Session, error)",
-	"ServerChannel.sendAuthenticatingSession":          "func(ctx Context, schemeOpts []AuthenticationScheme) (*Session, error)",
-	"ServerChannel.sendEstablishedSession":             "func(ctx Context, node Node) error",
-	"ServerChannel.sendNegotiatingConfirmationSession": "func(ctx Context, comp SessionCompression, encrypt SessionEncryption) error",
-	"ServerChannel.sendNegotiatingOptionsSession":      "func(ctx Context, compOptions []SessionCompression, encryptOptions []SessionEncryption) (*Session, error)",
-	"Session.populate":                                 "func(raw *rawEnvelope) error",
-	"Session.toRawEnvelope":                            "func() (*rawEnvelope, error)",
-	"acceptTransports":                                 "func(ctx Context, listener TransportListener, c chan<- Transport) error",
-	"buildAuthenticate":                                "func(plainAuth PlainAuthenticator, keyAuth KeyAuthenticator, externalAuth ExternalAuthenticator) func(ctx Context, identity Identity, authentication Authentication) (*AuthenticationResult, error)",
-	"channel.ensureEstablished":                        "func(action string) error",
-	"channel.ensureState":                              "func(state SessionState, action string) error",
-	"channel.ensureTransportOK":                        "func(action string) error",
-	"channel.processCommand":                           "func(ctx Context, sender RequestCommandSender, reqCmd *RequestCommand) (*ResponseCommand, error)",
-	"channel.receiveSession":                           "func(ctx Context) (*Session, error)",
-	"channel.sendSession":                              "func(ctx Context, ses *Session) error",
-	"channel.sendToTransport":                          "func(ctx Context, e envelope, action string) error",
-	"channel.setState":                                 "func(state SessionState)",
-	"channel.setStateWLock":                            "func(state SessionState)",
+	"ClientChannel.authenticateSession":                "func(Context, Identity, Authentication, string) *Session error",
+	"ClientChannel.negotiateSession":                   "func(Context, SessionCompression, SessionEncryption) *Session error",
+	"ClientChannel.receiveSessionFromServer":           "func(Context) *Session error",
+	"ClientChannel.sendFinishingSession":               "func(Context) error",
+	"ClientChannel.startNewSession":                    "func(Context) *Session error",
+	"Command.populate":                                 "func(*rawEnvelope) error",
+	"Command.toRawEnvelope":                            "func() *rawEnvelope error",
+	"DocumentCollection.populate":                      "func(*rawDocumentCollection) error",
+	"DocumentCollection.raw":                           "func() *rawDocumentCollection error",
+	"DocumentContainer.populate":                       "func(*rawDocumentContainer) error",
+	"DocumentContainer.raw":                            "func() *rawDocumentContainer error",
+	"Envelope.populate":                                "func(*rawEnvelope) error",
+	"Envelope.toRawEnvelope":                           "func() *rawEnvelope error",
+	"EnvelopeMux.handleMessage":                        "func(Context, *Message, Sender) error",
+	"EnvelopeMux.handleNotification":                   "func(Context, *Notification) error",
+	"EnvelopeMux.handleRequestCommand":                 "func(Context, *RequestCommand, Sender) error",
+	"EnvelopeMux.handleResponseCommand":                "func(Context, *ResponseCommand, Sender) error",
+	"EnvelopeMux.listen":                               "func(Context, *channel) error",
+	"Message.populate":                                 "func(*rawEnvelope) error",
+	"Message.toRawEnvelope":                            "func() *rawEnvelope error",
+	"Notification.populate":                            "func(*rawEnvelope) error",
+	"Notification.toRawEnvelope":                       "func() *rawEnvelope error",
+	"RequestCommand.populate":                          "func(*rawEnvelope) error",
+	"RequestCommand.toRawEnvelope":                     "func() *rawEnvelope error",
+	"ResponseCommand.populate":                         "func(*rawEnvelope) error",
+	"ResponseCommand.toRawEnvelope":                    "func() *rawEnvelope error",
+	"Server.consumeTransports":                         "func(Context)",
+	"Server.handleChannel":                             "func(Context, *ServerChannel)",
+	"ServerChannel.authenticateSession":                "func(Context, []AuthenticationScheme, func(Context, Identity, Authentication) (*AuthenticationResult, error), func(Context, Node, *ServerChannel) (Node, error)) error",
+	"ServerChannel.negotiateSession":                   "func(Context, []SessionCompression, []SessionEncryption) error",
+	"ServerChannel.receiveNewSession":                  "func(Context) *Session error",
+	"ServerChannel.sendAuthenticatingRoundTripSession": "func(Context, Authentication) *Session error",
+	"ServerChannel.sendAuthenticatingSession":          "func(Context, []AuthenticationScheme) *Session error",
+	"ServerChannel.sendEstablishedSession":             "func(Context, Node) error",
+	"ServerChannel.sendNegotiatingConfirmationSession": "func(Context, SessionCompression, SessionEncryption) error",
+	"ServerChannel.sendNegotiatingOptionsSession":      "func(Context, []SessionCompression, []SessionEncryption) *Session error",
+	"Session.populate":                                 "func(*rawEnvelope) error",
+	"Session.toRawEnvelope":                            "func() *rawEnvelope error",
+	"acceptTransports":                                 "func(Context, TransportListener, chan<- Transport) error",
+	"buildAuthenticate":                                "func(PlainAuthenticator, KeyAuthenticator, ExternalAuthenticator) func(ctx Context, identity Identity, authentication Authentication) (*AuthenticationResult, error)",
+	"channel.ensureEstablished":                        "func(string) error",
+	"channel.ensureState":                              "func(SessionState, string) error",
+	"channel.ensureTransportOK":                        "func(string) error",
+	"channel.processCommand":                           "func(Context, RequestCommandSender, *RequestCommand) *ResponseCommand error",
+	"channel.receiveSession":                           "func(Context) *Session error",
+	"channel.sendSession":                              "func(Context, *Session) error",
+	"channel.sendToTransport":                          "func(Context, envelope, string) error",
+	"channel.setState":                                 "func(SessionState)",
+	"channel.setStateWLock":                            "func(SessionState)",
 	"channel.startReceiver":                            "func()",
 	"channel.stopReceiver":                             "func()",
-	"channel.trySubmitCommandResult":                   "func(respCmd *ResponseCommand) bool",
-	"contains":                                         "func(a interface{}, e interface{}) bool",
+	"channel.trySubmitCommandResult":                   "func(*ResponseCommand) bool",
+	"contains":                                         "func(interface{}, interface{}) bool",
 	"inProcessTransportListener.listening":             "func() bool",
-	"inProcessTransportListener.newClient":             "func(addr InProcessAddr, bufferSize int) *inProcessTransport",
-	"intersect":                                        "func(a interface{}, b interface{}) []interface{}",
-	"newChannel":                                       "func(t Transport, bufferSize int) *channel",
-	"newInProcessTransport":                            "func(addr InProcessAddr, bufferSize int) *inProcessTransport",
-	"newInProcessTransportPair":                        "func(addr InProcessAddr, bufferSize int) (client *inProcessTransport, server *inProcessTransport)",
-	"rawEnvelope.envelopeType":                         "func() (string, error)",
-	"rawEnvelope.toEnvelope":                           "func() (envelope, error)",
-	"receiveFromTransport":                             "func(ctx Context, c *channel, done chan<- struct{})",
-	"sessionContext":                                   "func(ctx Context, c *channel) Context",
+	"inProcessTransportListener.newClient":             "func(InProcessAddr, int) *inProcessTransport",
+	"intersect":                                        "func(interface{}, interface{}) []interface{}",
+	"newChannel":                                       "func(Transport, int) *channel",
+	"newInProcessTransport":                            "func(InProcessAddr, int) *inProcessTransport",
+	"newInProcessTransportPair":                        "func(InProcessAddr, int) *inProcessTransport *inProcessTransport",
+	"rawEnvelope.envelopeType":                         "func() string error",
+	"rawEnvelope.toEnvelope":                           "func() envelope error",
+	"receiveFromTransport":                             "func(Context, *channel, chan<- struct{})",
+	"sessionContext":                                   "func(Context, *channel) Context",
 	"tcpTransport.ensureOpen":                          "func() error",
-	"tcpTransport.setConn":                             "func(conn Conn)",
+	"tcpTransport.setConn":                             "func(Conn)",
 	"tcpTransportListener.ensureStarted":               "func() error",
-	"tcpTransportListener.serve":                       "func(listener Listener)",
+	"tcpTransportListener.serve":                       "func(Listener)",
 	"websocketTransport.ensureOpen":                    "func() error",
 	"websocketTransportListener.ensureStarted":         "func() error",
 	"websocketTransportListener.tls":                   "func() bool",
